@@ -327,3 +327,21 @@ func compareReplay(exp []expCmd, got []*redisd.Req) (class string, at int) {
 	}
 	return "", -1
 }
+
+// enumSeqs calls f for every sequence over alpha of length 1..L.
+func enumSeqs(alpha []string, L int, f func([]string)) {
+	var rec func(prefix []string)
+	rec = func(prefix []string) {
+		if len(prefix) > 0 {
+			f(append([]string(nil), prefix...))
+		}
+		if len(prefix) == L {
+			return
+		}
+		for _, a := range alpha {
+			rec(append(prefix, a))
+		}
+	}
+	rec(nil)
+}
+
